@@ -230,6 +230,18 @@ func run(c *harness.Ctx, i int) {
 		defer b.s3.Close()
 	}
 	objs, ids := genStore(rng, uncompressed, strings.HasPrefix(kind, "local"))
+	storm := op == "verify" && rng.Intn(4) == 0
+	if storm {
+		// many tiny invalid chunks next to each other: the verify workers finish them within nanoseconds of each other
+		for k := 0; k < 50+rng.Intn(400); k++ {
+			var id desync.ChunkID
+			rng.Read(id[:])
+			if rng.Intn(2) == 0 {
+				copy(id[:2], ids[0][:2]) // same directory
+			}
+			objs = append(objs, object{key: objKey(id, !uncompressed), data: []byte{byte(k)}, category: "own-invalid", id: id, ownFmt: true})
+		}
+	}
 	cats := map[string]bool{}
 	for _, o := range objs {
 		b.put(o)
@@ -294,9 +306,22 @@ func run(c *harness.Ctx, i int) {
 				err = fmt.Errorf("%v: %s", err, out)
 			}
 		case "s3":
-			s, e := desync.NewS3Store(b.s3.URL(b.prefix), fakes.Creds(), fakes.Region, opt, fakes.Lookup)
+			o := opt
+			if rng.Intn(3) == 0 {
+				// the bucket refuses to delete some objects (object lock, policy): prune cannot report success then
+				salt := byte(rng.Intn(256))
+				b.s3.RefuseDelete = func(key string) bool { return len(key) > 0 && (key[len(key)-8]^salt)%3 == 0 }
+				o.ErrorRetry = rng.Intn(3)
+				o.ErrorRetryBaseInterval = time.Millisecond
+			}
+			s, e := desync.NewS3Store(b.s3.URL(b.prefix), fakes.Creds(), fakes.Region, o, fakes.Lookup)
 			dsu.Must(e)
 			err = s.Prune(context.Background(), keep)
+			b.s3.RefuseDelete = nil
+			if b.s3.Refused > 0 {
+				c.Count("s3_deletes_refused", int64(b.s3.Refused))
+				refKind += "+refused-deletes"
+			}
 		case "sftp":
 			os.Setenv("CASYNC_SSH_PATH", shim)
 			u, _ := url.Parse("sftp://localhost" + b.dir)
@@ -348,7 +373,7 @@ func run(c *harness.Ctx, i int) {
 			// An error is not a violation: the statement only constrains what a prune deletes and what is gone when
 			// it reports success (chunk-named files in wrong directories make LocalStore/SFTP prune stop with ChunkMissing).
 			c.Count("prune_errors", 1)
-			if !cats["misplaced"] {
+			if !cats["misplaced"] && !strings.Contains(refKind, "refused-deletes") {
 				c.Violation("prune-failed:"+kind, "prune failed on a store without misplaced files: %v", err)
 				return
 			}
@@ -363,8 +388,11 @@ func run(c *harness.Ctx, i int) {
 
 	// verify
 	n := []int{1, 4, 16}[rng.Intn(3)]
+	if storm {
+		n = []int{8, 16, 32}[rng.Intn(3)]
+	}
 	repair := rng.Intn(2) == 0
-	c.Info("op=verify backend=%s uncompressed=%v n=%d repair=%v objects=%d", kind, uncompressed, n, repair, len(objs))
+	c.Info("op=verify backend=%s uncompressed=%v n=%d repair=%v objects=%d storm=%v", kind, uncompressed, n, repair, len(objs), storm)
 	c.LogInfo()
 	var msgs bytes.Buffer
 	var err error
@@ -444,7 +472,7 @@ func run(c *harness.Ctx, i int) {
 	}
 	c.Count("verifies", 1)
 	if len(cats) >= 4 && len(want) > 0 {
-		c.NonTrivial("verify|%s|u%v|n%d|r%v|%v", kind, uncompressed, n, repair, catList(cats))
+		c.NonTrivial("verify|%s|u%v|n%d|r%v|storm%v|%v", kind, uncompressed, n, repair, storm, catList(cats))
 	}
 	c.Sample(map[string]interface{}{"op": "verify", "backend": kind, "uncompressed": uncompressed, "n": n, "repair": repair, "invalid_chunks": len(want), "reported": len(reported), "categories": catList(cats)})
 }
